@@ -270,7 +270,7 @@ def _candidates(case, shrink):
         for c in shrink(case):
             yield c
     for path, x in _leaves(case):
-        if path and path[-1] in _PROTECTED:
+        if path and (path[-1] in _PROTECTED or any(k in _PROTECTED or k == "errs" for k in path)):
             continue
         if isinstance(x, int):
             continue  # integers are flags / counts: only the structural shrinker touches them
@@ -2910,10 +2910,16 @@ def _c19_path(mod, case):
     # it falls like h^3 overall.  Exact monotonicity is demanded where it is a theorem (nested subdivisions, explicit
     # counts n and 2n above); here: never beyond the stated bound and never more than doubled.
     for (ea, da), (eb, db) in zip(devs, devs[1:]):
-        if db > 2 * da + floor or db > _C19_BOUND[mode]:
+        if db > _C19_BOUND[mode]:
+            fails.append({"key": "%s-deviation-above-bound" % mode, "prop": "C19", "expected": "<= %g also at error=%r" % (_C19_BOUND[mode], eb),
+                          "got": "%g" % db, "explanation": "a finer setting must stay within the bound stated for the default"})
+    if len(devs) >= 3:
+        (e0, d0), (e1, d1) = devs[0], devs[-1]
+        # default (0.1) against the finest setting (a quarter of it: about four times as many curves)
+        if d1 > d0 * (1 + 1e-6) + floor:
             fails.append({"key": "%s-deviation-grows-with-finer-subdivision" % mode, "prop": "C19",
-                          "expected": "deviation(error=%r) <= min(2 x %g, %g)" % (eb, da, _C19_BOUND[mode]), "got": "%g" % db,
-                          "explanation": "a finer subdivision must not increase the deviation (beyond the alignment effect of non-nested subdivisions)"})
+                          "expected": "deviation(error=%r) <= deviation(default) = %g" % (e1, d0), "got": "%g" % d1,
+                          "explanation": "a four times finer subdivision must not increase the deviation"})
     return fails
 
 
